@@ -1,9 +1,15 @@
 package main
 
 import (
+	"context"
 	"encoding/json"
 	"fmt"
+	"math/big"
+	"net/url"
+	"strings"
+	"time"
 
+	"github.com/iden3/go-merkletree-sql/v2"
 	"github.com/iden3/go-schema-processor/v2/merklize"
 )
 
@@ -146,6 +152,11 @@ func emitDocQ(out *Out, g *DocGen, root *ANode, p *Presentation, hs HSpec, maxQ 
 				}
 			}
 		}
+		// membership decided by the document itself (not by the entries the code derived from it)
+		if hs.Prime.BitLen() > 200 {
+			nd, na := documentPathsPredicate(run.Mz, root, g.r, &why)
+			c.Tags = append(c.Tags, fmt.Sprintf("docpaths:%d", nd/10*10), fmt.Sprintf("respelled-absent:%d", na/5*5))
+		}
 	} else if hs.Prime.BitLen() > 200 {
 		why = append(why, "well-formed tree-shaped document was not merklized: "+run.Err.Error())
 	}
@@ -208,10 +219,371 @@ func emitCollisionDoc(out *Out, g *DocGen, r *Rng, hs HSpec) {
 	out.Emit(c)
 }
 
+// ---------- membership by the document ----------
+//
+// The property speaks about paths that denote an entry *of the document*. The oracle here is the abstract document the
+// JSON-LD was rendered from: a leaf at the end of the chain of property IRIs (exactly as the document's context spells them),
+// with a position after every property that has several values. Which sibling gets which position is not the property's
+// business (canonical order), so positions are matched existentially: the n values of a property occupy the positions
+// 0..n-1 in some order. Nothing is asked about the values themselves (that is C01) - only what C02 says: existence proof,
+// a Value, the proof verifies against Root() for (hash of the path, hash of that Value), Entry and JSONLDType succeed; and
+// for a path that denotes nothing: non-existence proof that verifies, nil Value, Entry and JSONLDType fail.
+
+type pathProbe struct {
+	exists bool
+	bad    bool // Proof itself failed / hung
+}
+
+type docOracle struct {
+	mz     *merklize.Merklizer
+	cache  map[string]pathProbe
+	probed [][]interface{} // every admissible concrete path asked for, in order
+	why    *[]string
+}
+
+// probe asks the real code about one path and checks everything C02 says must hold whatever the answer is.
+func (o *docOracle) probe(parts []interface{}, remember bool) pathProbe {
+	k := fmt.Sprintf("%#v", parts)
+	if pr, ok := o.cache[k]; ok {
+		return pr
+	}
+	if remember {
+		o.probed = append(o.probed, cpParts(parts))
+	}
+	ctx := context.Background()
+	pr, err := guard(4*time.Second, func() (pathProbe, error) {
+		p, err := o.mz.Options().NewPath(parts...)
+		if err != nil {
+			return pathProbe{}, err
+		}
+		proof, val, err := o.mz.Proof(ctx, p)
+		if err != nil {
+			return pathProbe{}, err
+		}
+		if proof == nil {
+			return pathProbe{}, errNilNil
+		}
+		kh, err := p.MtEntry()
+		if err != nil {
+			return pathProbe{}, err
+		}
+		root := o.mz.Root()
+		if proof.Existence {
+			if val == nil {
+				*o.why = append(*o.why, fmt.Sprintf("existence proof without a Value for %v", parts))
+			} else if vh, err := val.MtEntry(); err != nil {
+				*o.why = append(*o.why, fmt.Sprintf("Value.MtEntry failed for %v: %v", parts, err))
+			} else if !merkletree.VerifyProof(root, proof, kh, vh) {
+				*o.why = append(*o.why, fmt.Sprintf("existence proof does not verify against Root() for %v", parts))
+			}
+		} else {
+			if val != nil {
+				*o.why = append(*o.why, fmt.Sprintf("non-existence proof with a non-nil Value for %v", parts))
+			}
+			if !merkletree.VerifyProof(root, proof, kh, big.NewInt(0)) {
+				*o.why = append(*o.why, fmt.Sprintf("non-existence proof does not verify against Root() for %v", parts))
+			}
+		}
+		_, eerr := o.mz.Entry(p)
+		_, terr := o.mz.JSONLDType(p)
+		if (eerr == nil) != proof.Existence || (terr == nil) != proof.Existence {
+			*o.why = append(*o.why, fmt.Sprintf("Entry/JSONLDType success (%v/%v) differs from proof existence %v for %v", eerr == nil, terr == nil, proof.Existence, parts))
+		}
+		return pathProbe{exists: proof.Existence}, nil
+	})
+	if err != nil {
+		*o.why = append(*o.why, fmt.Sprintf("Proof returned an error for %v: %s", parts, errClass(err)))
+		pr = pathProbe{bad: true}
+	}
+	o.cache[k] = pr
+	return pr
+}
+
+// nodeAt: are all leaves of the abstract node n provable when n sits at prefix? miss names the first leaf that is not.
+func (o *docOracle) nodeAt(n *ANode, prefix []interface{}) (ok bool, miss string) {
+	ok = true
+	note := func(format string, a ...any) {
+		if ok {
+			ok, miss = false, fmt.Sprintf(format, a...)
+		}
+	}
+	leaf := func(parts []interface{}, what string) {
+		if pr := o.probe(parts, true); !pr.exists && !pr.bad {
+			note("path %v denotes a leaf of the document (%s), but Proof returned a non-existence proof", parts, what)
+		}
+	}
+	ext := func(x ...interface{}) []interface{} { return append(cpParts(prefix), x...) }
+	if n.Type != nil {
+		leaf(ext(rdfType), "the type "+n.Type.IRI)
+	}
+	for _, f := range n.Fields {
+		t, cnt := f.Term, len(f.Vals)
+		if cnt == 1 {
+			v := f.Vals[0]
+			switch {
+			case v.Lit != nil:
+				leaf(ext(t.IRI), "the only value of "+t.Name)
+			case v.Node != nil:
+				if v.Node.ID != "" && t.Kind != "graph" {
+					leaf(ext(t.IRI), "the identifier of the only value of "+t.Name)
+				}
+				if cok, cm := o.nodeAt(v.Node, ext(t.IRI)); !cok {
+					note("%s", cm)
+				}
+			default:
+				leaf(ext(t.IRI), "the only value of "+t.Name)
+			}
+			continue
+		}
+		// several values: positions 0..cnt-1, in some order
+		if f.Vals[0].Node == nil {
+			for i := 0; i < cnt; i++ {
+				leaf(ext(t.IRI, i), fmt.Sprintf("one of the %d values of %s", cnt, t.Name))
+			}
+			continue
+		}
+		ids := 0
+		for _, v := range f.Vals {
+			if v.Node.ID != "" && t.Kind != "graph" {
+				ids++
+			}
+		}
+		if ids > 0 {
+			have := 0
+			for i := 0; i < cnt; i++ {
+				if o.probe(ext(t.IRI, i), true).exists {
+					have++
+				}
+			}
+			if have < ids {
+				note("%d of the %d values of %s carry an identifier, but only %d of the paths %v have an existence proof", ids, cnt, t.Name, have, ext(t.IRI, "0.."+fmt.Sprint(cnt-1)))
+			}
+		}
+		fits := make([][]bool, cnt)
+		misses := make([][]string, cnt)
+		for vi, v := range f.Vals {
+			fits[vi] = make([]bool, cnt)
+			misses[vi] = make([]string, cnt)
+			for i := 0; i < cnt; i++ {
+				fits[vi][i], misses[vi][i] = o.nodeAt(v.Node, ext(t.IRI, i))
+			}
+		}
+		if !perfectMatching(fits) {
+			m := ""
+			for vi := range misses {
+				all := true
+				for i := range misses[vi] {
+					all = all && !fits[vi][i]
+				}
+				if all {
+					m = misses[vi][0]
+					break
+				}
+			}
+			note("the %d values of %s cannot be found at the positions 0..%d under %v in any order; e.g. %s", cnt, t.Name, cnt-1, ext(t.IRI), m)
+		}
+	}
+	return ok, miss
+}
+
+func perfectMatching(fits [][]bool) bool {
+	n := len(fits)
+	used := make([]bool, n)
+	var rec func(v int) bool
+	rec = func(v int) bool {
+		if v == n {
+			return true
+		}
+		for i := 0; i < n; i++ {
+			if !used[i] && fits[v][i] {
+				used[i] = true
+				if rec(v + 1) {
+					return true
+				}
+				used[i] = false
+			}
+		}
+		return false
+	}
+	return rec(0)
+}
+
+// iriRespellings: other identifiers that a URI normaliser would call "the same" as s. As identifiers (strings) they are
+// different ones: RFC 3986 re-serialisation (Go's net/url), percent-encoding of what is not ASCII, percent-decoding, case of
+// the scheme / of everything / of the hex digits, an empty fragment or a trailing slash more or less, default ports, dot segments.
+func iriRespellings(s string) []string {
+	var out []string
+	seen := map[string]bool{s: true, "": true}
+	add := func(x string) {
+		if !seen[x] {
+			seen[x] = true
+			out = append(out, x)
+		}
+	}
+	if u, err := url.Parse(s); err == nil {
+		add(u.String())
+		if u.Host != "" {
+			add(u.JoinPath().String())
+			v := *u
+			v.Host = strings.ToLower(u.Host)
+			add(v.String())
+		}
+	}
+	var enc strings.Builder
+	for i := 0; i < len(s); i++ {
+		if s[i] >= 0x80 {
+			fmt.Fprintf(&enc, "%%%02X", s[i])
+		} else {
+			enc.WriteByte(s[i])
+		}
+	}
+	add(enc.String())
+	add(strings.ToLower(enc.String()))
+	if d, err := url.PathUnescape(s); err == nil {
+		add(d)
+	}
+	add(strings.ToLower(s))
+	if i := strings.Index(s, ":"); i > 0 {
+		add(strings.ToUpper(s[:i]) + s[i:])
+		add(strings.ToLower(s[:i]) + s[i:])
+	}
+	add(strings.TrimSuffix(s, "#"))
+	add(strings.TrimSuffix(s, "/"))
+	add(strings.TrimSuffix(s, "?"))
+	add(s + "#")
+	add(s + "/")
+	add(strings.Replace(s, ":443/", "/", 1))
+	add(strings.Replace(s, ":80/", "/", 1))
+	add(strings.Replace(s, "/a/../", "/", 1))
+	add(strings.Replace(s, "/vocab", "/./vocab", 1))
+	return out
+}
+
+func allTermIRIs(td *TypeDef, into map[string]bool) {
+	into[td.IRI] = true
+	for _, t := range td.Terms {
+		into[t.IRI] = true
+		if t.Child != nil {
+			allTermIRIs(t.Child, into)
+		}
+	}
+}
+
+// documentPathsPredicate: every leaf of the abstract document is provable under the path of its property IRIs, and a path
+// in which one of those IRIs is replaced by another spelling (an identifier the document does not use) is provably absent.
+func documentPathsPredicate(mz *merklize.Merklizer, root *ANode, r *Rng, why *[]string) (nDoc, nAbsent int) {
+	var mine []string
+	o := &docOracle{mz: mz, cache: map[string]pathProbe{}, why: &mine}
+	if ok, miss := o.nodeAt(root, nil); !ok {
+		mine = append([]string{miss}, mine...)
+	}
+	nDoc = len(o.probed)
+	// the document's own property IRIs (and rdf:type): a respelling that happens to be one of them is left alone
+	own := map[string]bool{rdfType: true}
+	var walk func(n *ANode)
+	walk = func(n *ANode) {
+		if n.Type != nil {
+			allTermIRIs(n.Type, own)
+		}
+		for _, f := range n.Fields {
+			own[f.Term.IRI] = true
+			for _, v := range f.Vals {
+				if v.Node != nil {
+					walk(v.Node)
+				}
+			}
+		}
+	}
+	walk(root)
+	base := o.probed
+	for _, pi := range r.Perm(len(base)) {
+		if nAbsent >= 12 {
+			break
+		}
+		parts := base[pi]
+		var pos []int
+		for i, p := range parts {
+			if _, ok := p.(string); ok {
+				pos = append(pos, i)
+			}
+		}
+		if len(pos) == 0 {
+			continue
+		}
+		at := pos[r.Intn(len(pos))]
+		alts := iriRespellings(parts[at].(string))
+		alt := alts[r.Intn(len(alts))]
+		if own[alt] {
+			continue
+		}
+		q := cpParts(parts)
+		q[at] = alt
+		nAbsent++
+		if pr := o.probe(q, false); pr.exists {
+			mine = append(mine, fmt.Sprintf("path %v does not denote anything in the document (the document's property is %q, a different identifier), but Proof returned an existence proof", q, parts[at]))
+		}
+	}
+	*why = append(*why, mine...)
+	return nDoc, nAbsent
+}
+
+// ---------- vocabularies that are not written in ASCII ----------
+
+var c02Scripts = []string{"prénom", "âge", "Straße", "имя", "όνομα", "名前", "語彙", "이름", "اسم", "नाम", "שם", "tên-gọi", "e\u0301", "😀", "𝒳", "𠀋", "ﬁ", "İ", "ǅ", "ÿ"}
+
+// i18nIRI: a property IRI in the sense of RFC 3987 (or with a presentation a URI normaliser would touch), unique through
+// the term's own name. Where the unusual characters sit (authority, path, query, fragment), how many there are and of which
+// script varies.
+func i18nIRI(r *Rng, name string) string {
+	w := func() string {
+		s := r.Pick(c02Scripts)
+		if r.Chance(25) {
+			s += r.Pick(c02Scripts)
+		}
+		return s
+	}
+	scheme := r.Pick([]string{"https", "https", "http", "HTTPS", "Http", "urn"})
+	if scheme == "urn" {
+		return r.Pick([]string{"urn:ex:v#", "urn:ex:" + w() + ":", "urn:ex:v:" + w() + "#", "URN:ex:v#"}) + r.Pick([]string{name + w(), w() + name, name + "-" + w(), name})
+	}
+	host := r.Pick([]string{"example.com", "exemple.fr", "例え.jp", "пример.рф", "Example.ORG", "example.com:8443"})
+	switch r.Intn(7) {
+	case 0:
+		return fmt.Sprintf("%s://%s/vocabulaire#%s%s", scheme, host, name, w())
+	case 1:
+		return fmt.Sprintf("%s://%s/%s/%s", scheme, host, w(), name)
+	case 2:
+		return fmt.Sprintf("%s://%s/%s/%s#%s", scheme, host, w(), w(), name)
+	case 3:
+		return fmt.Sprintf("%s://%s/vocab?ns=%s#%s", scheme, host, w(), name)
+	case 4:
+		return fmt.Sprintf("%s://%s/vocab/%s%s#", scheme, host, name, r.Pick([]string{"", w()}))
+	case 5:
+		return fmt.Sprintf("%s://%s/vocab/%s-%s", scheme, host, w(), name)
+	default:
+		return fmt.Sprintf("%s://%s/v/%s", scheme, host, name)
+	}
+}
+
+func i18nVocabulary(td *TypeDef, r *Rng, pct int) {
+	for _, t := range td.Terms {
+		if r.Chance(pct) {
+			t.IRI = i18nIRI(r, t.Name)
+		}
+		if t.Child != nil {
+			i18nVocabulary(t.Child, r, pct)
+		}
+	}
+}
+
 func genC02(out *Out, r *Rng, tier string, n int, shard int) {
 	for i := 0; i < n; i++ {
 		g := NewDocGen(r, 1+r.Intn(3))
 		g.nativeInStr = true
+		if i%3 == 2 {
+			// a vocabulary of another language: a few of its property IRIs, or most of them
+			i18nVocabulary(g.sch.Root, r, []int{15, 40, 80}[r.Intn(3)])
+		}
 		root := g.node(g.sch.Root, 0, r.Bool())
 		if i%4 == 1 {
 			emitCollisionDoc(out, g, r, hPoseidon())
